@@ -384,8 +384,36 @@ pub fn check_c02(fi: &FontInfo, req: &Req, cnt: &mut Counters) {
     }
 }
 
+/// (consonant, virama / coeng, a vowel sign that is reordered or attached, script) of the syllabic scripts
+const SYL: &[(u32, u32, u32, &str)] = &[(0x0915, 0x094D, 0x093F, "Deva"), (0x0995, 0x09CD, 0x09BF, "Beng"), (0x0A95, 0x0ACD, 0x0ABF, "Gujr"), (0x0B15, 0x0B4D, 0x0B3F, "Orya"),
+    (0x0B95, 0x0BCD, 0x0BBF, "Taml"), (0x0C15, 0x0C4D, 0x0C3F, "Telu"), (0x0C95, 0x0CCD, 0x0CBF, "Knda"), (0x0D15, 0x0D4D, 0x0D3F, "Mlym"), (0x0D9A, 0x0DCA, 0x0DD2, "Sinh"),
+    (0x1780, 0x17D2, 0x17B7, "Khmr"), (0x1000, 0x1039, 0x102D, "Mymr"), (0x1B13, 0x1B44, 0x1B36, "Bali"), (0xA98F, 0xA9C0, 0xA9B6, "Java")];
+
 fn c02(r: &mut Rng, fonts: &[FontInfo], n: u64, tr: &mut Option<std::fs::File>) {
     let mut cnt = Counters::default();
+    // dedicated pass: ONE long syllable per text, (consonant, virama) x k, consonant [, vowel sign]: the syllabic shapers
+    // sort the glyphs of a syllable by position class and rely on the sort keeping tied glyphs in logical order, for any
+    // number of glyphs (k on both sides of the small-slice thresholds of sorting routines)
+    for fi in fonts.iter() {
+        for &(c, h, m, sc) in SYL.iter().filter(|x| fi.chars.contains(&x.0) && fi.chars.contains(&x.1)) {
+            for (j, k) in [9usize, 10, 15, 16, 17, 20, 24, 31, 32, 33, 40, 64].iter().enumerate() {
+                let mut t: Vec<u32> = Vec::new();
+                for _ in 0..*k {
+                    t.push(c);
+                    t.push(h);
+                }
+                t.push(c);
+                if j % 3 != 2 {
+                    t.push(m);
+                }
+                let cl: Vec<u32> = match j % 4 { 0 => (0..t.len() as u32).collect(), 1 => (0..t.len() as u32).map(|i| 3 * i).collect(), 2 => (0..t.len() as u32).map(|i| i / 2).collect(), _ => (0..t.len() as u32).map(|i| 7 + i).collect() };
+                let req = Req { text: t.into_iter().zip(cl.into_iter()).collect(), script: Some(sc.to_string()), level: (j % 2) as u8, flags: 3, ..Default::default() };
+                trace(tr, &format!("longsyl {} {} [{}]", sc, fi.path, fmt_req(&req)));
+                check_c02(fi, &req, &mut cnt);
+                cnt.bump("long_syllable_cases");
+            }
+        }
+    }
     // dedicated pass: fonts with legacy kern/kerx x four directions x kerning on/off (reversal pairing)
     for fi in fonts.iter().filter(|f| f.has_kern) {
         for k in 0..48u32 {
@@ -1380,9 +1408,6 @@ fn c01(r: &mut Rng, fonts: &[FontInfo], n: u64, tr: &mut Option<std::fs::File>, 
             7 => {
                 // one syllable of several hundred glyphs: (consonant, virama) x k, consonant [, vowel sign] - the syllabic
                 // shapers keep per-glyph positions of a syllable in one byte
-                const SYL: &[(u32, u32, u32, &str)] = &[(0x0915, 0x094D, 0x093F, "Deva"), (0x0995, 0x09CD, 0x09BF, "Beng"), (0x0A95, 0x0ACD, 0x0ABF, "Gujr"), (0x0B15, 0x0B4D, 0x0B3F, "Orya"),
-                    (0x0B95, 0x0BCD, 0x0BBF, "Taml"), (0x0C15, 0x0C4D, 0x0C3F, "Telu"), (0x0C95, 0x0CCD, 0x0CBF, "Knda"), (0x0D15, 0x0D4D, 0x0D3F, "Mlym"), (0x0D9A, 0x0DCA, 0x0DD2, "Sinh"),
-                    (0x1780, 0x17D2, 0x17B7, "Khmr"), (0x1000, 0x1039, 0x102D, "Mymr"), (0x1B13, 0x1B44, 0x1B36, "Bali"), (0xA98F, 0xA9C0, 0xA9B6, "Java")];
                 let cands: Vec<&(u32, u32, u32, &str)> = SYL.iter().filter(|x| fi.chars.contains(&x.0)).collect();
                 let (c, h, m, sc) = if cands.is_empty() { SYL[0] } else { **r.pick(&cands) };
                 let k = *r.pick(&[63usize, 64, 127, 128, 129, 200, 255, 256, 300]);
